@@ -259,6 +259,8 @@ pub fn topic_http_safe() -> BoxedStrategy<String> {
             "03d4sq5pnxqgzj0xgqm4bwh0y", "x.register", "x.out", "casx", "imports",
             // hierarchical topics, also with a trailing slash next to the same name without it
             "a/", "a/b", "ab/", "a//", "a.b/",
+            // an ordinary, stored frame whose topic is that of a synthetic marker
+            "xs.pulse",
         ]).prop_map(|s| s.to_string()),
         2 => "[a-c.~_-]{0,4}".prop_map(|s| s),
     ]
